@@ -93,6 +93,12 @@ func (w *World) verifyContract(con *Contract, opts *RunOpts) (res *FuncResult) {
 				if r := recover(); r != nil {
 					switch p := r.(type) {
 					case execPanic:
+						if strings.HasPrefix(p.msg, "non-termination:") {
+							pathNo++
+							ob := &Oblig{Kind: "termination", Name: con.Func + "/termination(bounded)", Goal: tFalse, PathNo: pathNo, Tags: append(append([]string{}, con.Props...), "C18"), Where: p.msg, Shape: strings.Join(sc.Desc, " "), Func: con.Func}
+							e.sink(ob)
+							return
+						}
 						addErr(p.msg)
 						res.Stats.Unsupported[p.msg]++
 					case specPanic:
@@ -300,6 +306,9 @@ func (w *World) verifyContract(con *Contract, opts *RunOpts) (res *FuncResult) {
 			}
 		}()
 	}
+	// every loop finished within the visit bound on every scenario path (a failed
+	// instance is emitted where the bound is exceeded on concrete data)
+	e.sink(&Oblig{Kind: "termination", Name: con.Func + "/termination(bounded)", Goal: tTrue, PathNo: 0, Tags: append(append([]string{}, con.Props...), "C18"), Func: con.Func, Where: fmt.Sprintf("all loops finish within %d visits per block on %d scenario shapes", maxBlockVisits, len(shapes))})
 	return res
 }
 
